@@ -461,8 +461,10 @@ func init() {
 				{Backing: "store", MinMergePct: 0.01, Concern: 2},
 				{Backing: "store", MinMergePct: 100, Concern: 1, CachePersisted: true},
 			},
-			Steps: []string{"M", "Pb", "Pe", "S+", "CS+", "I+", "IX", "SS+", "H-", "CC", "CS", "R"}, Devs: []string{"m1", "p1", "m2", "p2"},
-			Roots: [][]string{{"B0", "M", "Pb", "Pe", "B3", "M", "Pb", "Pe", "B0"}, {"B3", "M", "Pb", "Pe", "R"}},
+			Steps: []string{"M", "MA", "Pb", "Pe", "S+", "CS+", "I+", "IX", "SS+", "H-", "CC", "CS", "R"}, Devs: []string{"m1", "p1", "m2", "p2"},
+			// roots: two persisted rounds and a batch in memory; a persisted child collection and a reopen; a persisted
+			// round followed by a round without data (a merger ping on an idle collection)
+			Roots: [][]string{{"B0", "M", "Pb", "Pe", "B3", "M", "Pb", "Pe", "B0"}, {"B3", "M", "Pb", "Pe", "R"}, {"B3", "M", "Pb", "Pe", "MA", "Pb", "Pe"}},
 			MaxB:  3, MaxD: 8, MaxK: 1, MaxH: 2, MaxR: 1, Deadline: tierDeadline(tier),
 			Note: "oracle: every open snapshot / child snapshot / iterator is re-read after every later step and must show what it showed when taken"}
 		if tier == "thorough" {
